@@ -17,14 +17,15 @@ EXTENDS Naturals, Sequences, FiniteSets, TLC
 
 Kinds == {"int", "intList", "tokens", "tokenLists", "model", "modelList", "modelUnion", "anyType", "wildcardList",
           "attributes", "primUnion", "compound", "enum", "nillableInt", "requiredInt",
-          "hierarchy", "hierarchyList", "qname"}     \* a field typed with the BASE of a chain H0 <- H1 <- H2 <- H3 (each level adds a required field)
+          "hierarchy", "hierarchyList", "qname",
+          "compoundIntBool"}                \* a compound field whose choices are int THEN bool (bool is a subclass of int in Python)     \* a field typed with the BASE of a chain H0 <- H1 <- H2 <- H3 (each level adds a required field)
 
 \* JSON shapes (the harness materialises them; names are self-describing)
 Shapes == {"null", "true", "int", "float", "str", "numstr", "emptyList", "intList", "strList", "listOfIntLists", "listOfEmptyList",
            "emptyObj", "leafObj", "unknownKeyObj", "listOfLeafObj", "listOfEmptyObj", "listOfNull", "anyElementObj", "derivedObj",
            "strDict", "nestedList3",
            "h0Obj", "h1Obj", "h2Obj", "h3Obj", "listOfHObjs",
-           "clarkStr", "clarkBrokenStr"}  \* objects with exactly the fields of level n of the chain; one of each
+           "clarkStr", "clarkBrokenStr", "boolList", "intBoolList"}  \* objects with exactly the fields of level n of the chain; one of each
 
 Positions == {"root", "nested", "inList"}
 
@@ -49,6 +50,7 @@ Canonical(k, s) ==
     [] k = "hierarchy"     -> s \in {"null", "h0Obj", "h1Obj", "h2Obj", "h3Obj"}
     [] k = "hierarchyList" -> s \in {"emptyList", "listOfHObjs"}
     [] k = "qname"         -> s \in {"null", "str", "clarkStr"}
+    [] k = "compoundIntBool" -> s \in {"emptyList", "intList", "boolList", "intBoolList"}
 
 \* C10: a scalar the declared type has no lexical form for.  The decoder keeps it (as its lexical form) with a
 \* ConverterWarning, or fails with ParserError when conversion warnings are configured to fail.
@@ -62,5 +64,5 @@ Unconvertible(k, s) ==
 TableSane == /\ \A k \in Kinds : \E s \in Shapes : Canonical(k, s)
              /\ ~Canonical("requiredInt", "null")
              /\ \A k \in Kinds, s \in Shapes : ~(Canonical(k, s) /\ Unconvertible(k, s))
-             /\ \A k \in {"intList", "tokens", "tokenLists", "modelList", "wildcardList", "compound", "hierarchyList"} : Canonical(k, "emptyList") /\ ~Canonical(k, "null")
+             /\ \A k \in {"intList", "tokens", "tokenLists", "modelList", "wildcardList", "compound", "hierarchyList", "compoundIntBool"} : Canonical(k, "emptyList") /\ ~Canonical(k, "null")
 =============================================================================
